@@ -32,6 +32,7 @@ impl PCheck for C05 {
     }
     fn prepare(&self, pat: &[u32], flags: Flags, _rep: Option<&mut Report>) -> Prep<C05Prep> {
         let Ok(p) = esref::parse(pat, flags) else { return Prep::Skip("reference_rejects") };
+        let flags = Flags { n: false, ..flags };
         let a = engine::compile(pat, flags, false);
         let b = engine::compile(pat, flags, true);
         match (a, b) {
